@@ -1,6 +1,7 @@
 (* C56: runs the extracted Gallina model (C56Model.v) on the families read from stdin, same line protocol as
    driver.cxx:  <cubic|fcc|bcc|hcp|hcpfix> indices of b, indices of p.  "hcpfix" = plane generator with both signs
-   of the fourth index (the code with fix_hcp_planes.diff). *)
+   of the fourth index (the code with fix_hcp_planes.diff).
+   "im3 <b p>*" / "im4 <b p>*": model of the interaction-matrix structure (C56IMModel.v) of a list of systems. *)
 open C56_model
 
 let rec pos_of_int n = if n = 1 then XH else if n land 1 = 0 then XO (pos_of_int (n lsr 1)) else XI (pos_of_int (n lsr 1))
@@ -25,7 +26,18 @@ let () =
         let cs = List.hd toks in
         let nums = List.map int_of_string (List.tl toks) in
         Printf.printf "BEGIN %s\n" line;
-        (if cs = "hcp" || cs = "hcpfix" then begin
+        let rec int_of_nat = function O -> 0 | S n -> 1 + int_of_nat n in
+        let rec chunks k l = if l = [] then [] else take k l :: chunks k (drop k l) in
+        let print_im (n, m) =
+          Printf.printf "IMR %d %d\n" (int_of_nat n) (List.length m);
+          List.iter (fun row -> print_string "IM"; List.iter (fun r -> Printf.printf " %d" (int_of_nat r)) row;
+                                print_string "\n") m in
+        (* "im3" / "im4": the interaction-matrix structure of the LIST of systems given on the line (b p b p ...) *)
+        (if cs = "im3" then
+           print_im (cubic_im (List.map (fun c -> (v3 (take 3 c), v3 (drop 3 c))) (chunks 6 nums)))
+         else if cs = "im4" then
+           print_im (hcp_im (List.map (fun c -> (v4 (take 4 c), v4 (drop 4 c))) (chunks 8 nums)))
+         else if cs = "hcp" || cs = "hcpfix" then begin
            match hcp_systems (cs = "hcpfix") (v4 (take 4 nums)) (v4 (drop 4 nums)) with
            | None -> print_string "ERR\n"
            | Some l -> List.iter (fun (b, p) -> Printf.printf "SYS 0 %s %s\n" (p4 b) (p4 p)) l
